@@ -268,7 +268,7 @@ def initState (funcs : List CP) : Chain :=
   (funcs.zip (List.range funcs.length)).map fun (c, i) =>
     let autoDesired := !c.required && !c.desired && c.cls != .finalFunc && (stripUnusedT c.out).isEmpty
     { c := c, pos := i, inc := c.required,
-      mcOut := c.hasMustConsume, mcRet := !c.hasConsOpt,
+      mcOut := c.hasMustConsume, mcRet := true,
       wanted := autoDesired, wantedInCluster := autoDesired && c.cluster != 0 }
 
 /-- cluster leaders -/
